@@ -189,7 +189,11 @@ func (l *Listener) Accept() (c net.Conn, err error) {
 		if maxed {
 			err := fmt.Errorf("too many connections: %d", n)
 			core.Log(core.WARN, l.ctx, "service.Listener", "error", err)
-			tooMany(c)
+			// No connection has been accepted at this point (c
+			// is still nil), so there is nobody to answer with
+			// 'tooMany': the client stays in the listen backlog
+			// while the temporary error makes the server back
+			// off and try again.
 			return nil, TooManyConnections
 		}
 	}
